@@ -310,6 +310,9 @@ class Simulation:
                 "the process stack."
             )
         self.env.run(until=until)
+        # As at the end of start(): collect the events of the last timestep,
+        # so that the event log does not depend on where the run was paused
+        self.monitor.collate_events()
 
     def is_finished(self):
         """
